@@ -758,6 +758,23 @@ int32_t tls13ImportState(ssl_t *ssl,
         goto out_internal_error;
     }
 
+    /* The ticket is ours (it decrypted under one of our keys).  Honour the
+       lifetime we announced for it: an expired ticket is ignored, which
+       leads to a full handshake. */
+    {
+        psTime_t now;
+
+        psGetTime(&now, ssl->userPtr);
+        if (psDiffMsecs(params.timestamp, now, ssl->userPtr) < 0 ||
+            (uint32_t) psDiffMsecs(params.timestamp, now, ssl->userPtr) / 1000
+                > params.ticketLifetime)
+        {
+            psTraceInfo("Session ticket has expired\n");
+            *pskOut = NULL;
+            return MATRIXSSL_SUCCESS;
+        }
+    }
+
     /* Postpone validation of the decrypted session parameters
        until after we have negotiated the parameters for the current
        handshake. */
